@@ -46,6 +46,8 @@ pub struct Hist {
     pub bound: f64,
     pub registry: Vec<Snap>,
     pub snapshots_on: bool,
+    /// maintain the expected-gradient ledger (C10); off for monitors that do not need reference gradients
+    pub track_slots: bool,
     pub failures: Vec<HFailure>,
     pub step: usize,
     pub passes: usize,
@@ -73,6 +75,7 @@ impl Hist {
             bound: 0.0,
             registry: vec![],
             snapshots_on,
+            track_slots: true,
             failures: vec![],
             step: 0,
             passes: 0,
@@ -377,6 +380,9 @@ impl Hist {
         self.log.push(format!("n{}.backward({:?}){}", start, seed, if from_clone { " via clone" } else { "" }));
         if let Err(m) = res {
             self.fail("pass-panic", format!("backward on n{} panicked: {}", start, m));
+            return;
+        }
+        if !self.track_slots {
             return;
         }
         // reference: which slots receive what
